@@ -901,6 +901,7 @@ func Main() {
 	r.Cases("small", nSmall, opts(r.N(6, 16)), smallLog)
 	r.Cases("large", r.N(40, 3000), opts(r.N(8, 16)), largeLog)
 	r.Cases("encoder", r.N(40, 2000), opts(r.N(8, 16)), encoderCase)
+	r.Cases("onstart-repair", r.N(40, 1200), core.Opts{Procs: r.N(8, 16), StallSec: 600}, onStartRepair)
 
 	if !r.IsChild() && os.Getenv("VERIF_ONLY_CASE") == "" {
 		complete := r.Counter("exh_logs_done") == int64(nSmall)+int64(corpusExhaustive)
@@ -928,6 +929,7 @@ func Main() {
 		r.Floor("faults:lenfield", 20)
 		r.Floor("faults:overwrite", 20)
 		r.Floor("corpus_size_limit_checks", 3)
+		r.Floor("onstart_logs_readable_after_restart", 15)
 	}
 	if base := os.Getenv("VERIF_C15_SCRATCH"); base != "" && !r.IsChild() {
 		os.RemoveAll(base) // Finish exits the process
